@@ -18,11 +18,11 @@ def plan(tier, seed, kf_ids):
         for wh, nm in enumerate(("bin", "oct", "hex", "HEX")):
             kinds.append(("radix_" + nm, "c09_radix!(%%s, %%s, %%s, %%d, %d);" % wh, "{:%s}: the printed digits are exactly the value "
                           "(N * 2^f == |bits| * radix^k), digit case as requested" % "boxX"[wh]))
-        for wh, nm in enumerate(("plus", "right", "fill_left", "zero", "alt_hex", "centre_plus")):
+        for wh, nm in enumerate(("plus", "right", "fill_left", "zero", "alt_hex", "centre_plus", "width_prec")):
             kinds.append(("flags_" + nm, "c09_flags!(%%s, %%s, %%s, %%d, %d);" % wh, "format flags '%s' with width <= 12 only add padding, sign "
                           "and prefix around the flag-free digits" % nm))
         QUICK = {("display", "U", 4), ("display", "I", 7), ("display", "U", 8), ("prec", "U", 0), ("prec", "I", 4), ("roundtrip", "U", 8),
-                 ("radix_hex", "U", 4), ("radix_bin", "I", 4), ("flags_alt_hex", "I", 4)}
+                 ("radix_hex", "U", 4), ("radix_bin", "I", 4), ("flags_alt_hex", "I", 4), ("flags_width_prec", "I", 4)}
         for kind, tmpl, desc in kinds:
             if q and (kind, s, f) not in QUICK:
                 continue
